@@ -721,7 +721,7 @@ func genC17(r *rand.Rand, tier string, idx int) *World {
 		e.Strategy.Canary = &CanaryDef{Replicas: pick(r, "1", "3"), Duration: "10m"}
 	}
 	w.EDS = []*EDSDef{e}
-	w.Extra["batchFail"] = []string{"none", "some", "all"}[idx%3]
+	w.Extra["batchFail"] = []string{"none", "some", "all", "some", "first-batch"}[idx%5]
 	w.Extra["c17"] = "1"
 	w.Cfg = Config{ChaosSteps: pick(r, 30, 80), Kubelet: true, KubeletFaults: chance(r, 0.3), CLI: true, TemplateEdits: true, Stall: false, QuiesceRounds: 3, ERSTouch: chance(r, 0.5)}
 	w.Settings = []*SettingDef{{NS: "ns1", Name: "set0", Ref: "foo", Selector: map[string]string{"zone": "a"}, Container: "main", Cpu: "500m", AgeSec: 10}}
